@@ -10,6 +10,7 @@ import AriVerif.Init
 import AriVerif.Conc.Data
 import AriVerif.Framing
 import AriVerif.Sender
+import AriVerif.Dispatch
 /-!
 Line-protocol driver: one operation per input line, one answer line per operation.
 Every string travels as lower-case hex of its UTF-8 bytes (`-` = empty).
@@ -153,6 +154,38 @@ def stepLine (line : String) : String :=
           | _, _ => "bad-op"
         | none => "bad-op"
       | _, _, _, _, _ => "bad-op"
+  | "dispatch" :: kind :: exh :: ka :: hv :: rest =>
+      let k? : Option Kind := if kind = "data" then some .dataK else if kind = "meta" then some .metaK else none
+      let hb (t : String) : Option Bool := if t = "t" then some true else if t = "f" then some false else none
+      match k?, parseRat? ka, parseRat? hv with
+      | some k, some kav, some hvv =>
+        -- rest: <initOutcome tokens> "--" hexlines
+        let outToks := rest.takeWhile (· ≠ "--")
+        let lineToks := (rest.dropWhile (· ≠ "--")).drop 1
+        match parseOutcomes outToks [], hexToks? lineToks with
+        | some [o1, o2], some lines =>
+          let cfg : SrvCfg := { kind := k, excHandler := hb exh, ioHandler := none, keepAlive := kav }
+          let env : InitEnv := { initOutcome := o1, listenerOutcome := o2, hintValue := hvv }
+          let st0 : RState := { keepAlive := (Gen.initialKeepAlive kav, Gen.initialKeepAlive kav) }
+          let (st, acts) := dispatchAll cfg env st0 lines
+          let showD (d : PDict) : String := "d{" ++ ",".intercalate (d.flatMap fun (a, b) => [showVal a, showVal b]) ++ "}"
+          let showA : RAct → Option String
+            | .discard => none
+            | .handlerExc => some "handler"
+            | .fal => some "fal"
+            | .initialize a f => some ("init:" ++ showD a ++ ":" ++ showOptStr f)
+            | .setListener => some "listener"
+            | .reply l => some ("reply:" ++ Hex.ofStr l)
+            | .submit m id _ => some ("submit:" ++ m ++ ":" ++ Hex.ofStr id)
+            | .dataReq b id item => some ("data:" ++ (if b then "SUB" else "USB") ++ ":" ++ Hex.ofStr id ++ ":" ++ showVal item)
+            | .quit => some "quit"
+            | .poolShutdown => some "poolshutdown"
+            | .sockClose => some "sockclose"
+          "ok " ++ " | ".intercalate (acts.map fun as => ",".intercalate (as.filterMap showA)) ++
+            " ; init=" ++ (if st.initExpected then "t" else "f") ++ " close=" ++ (if st.closeExpected then "t" else "f") ++
+            " closed=" ++ (if st.closed then "t" else "f") ++ " ka=" ++ showRat st.keepAlive.1
+        | _, _ => "bad-op"
+      | _, _, _ => "bad-op"
   | "sender" :: tie :: k0 :: hz :: evs =>
       let parseEv (t : String) : Option (Nat × SAct) :=
         match t.splitOn ":" with
@@ -269,6 +302,10 @@ def stepState (ds : DriverState) (line : String) : DriverState × String :=
     match n.toNat? with
     | some k => ({ ds with data := some { poolN := k } }, "ok")
     | none => (ds, "bad-op")
+  | ["cosim", "data", n, u, p] =>
+    match n.toNat?, parseOptStr? u, parseOptStr? p with
+    | some k, some uu, some pp => ({ ds with data := some { poolN := k, user := uu, password := pp } }, "ok")
+    | _, _, _ => (ds, "bad-op")
   | "k" :: rest =>
     match ds.data with
     | some st => let (st', ans) := cosimChunk st rest; ({ ds with data := some st' }, ans)
